@@ -35,10 +35,15 @@ _s = z3.Const("s!ax", z3.StringSort())
 _i = z3.Const("i!ax", z3.IntSort())
 # quantified background axioms, each keyed by the symbol that triggers it: an axiom is
 # added to a query only if that symbol occurs in it (keeps sat answers decidable)
+def _not_special(t):
+    return z3.And(t != NONE_U, t != TRUE_U, t != FALSE_U, t != NOTHING_U)
+
+
 TRIGGERED_AXIOMS = {
     "Path": z3.ForAll([_u], unPath_U(Path_U(_u)) == _u, patterns=[Path_U(_u)]),
-    "u_of_str": z3.ForAll([_s], str_U(u_of_str(_s)) == _s, patterns=[u_of_str(_s)]),
-    "u_of_int": z3.ForAll([_i], int_U(u_of_int(_i)) == _i, patterns=[u_of_int(_i)]),
+    # injections are injective and never yield None / True / False / attrs.NOTHING
+    "u_of_str": z3.ForAll([_s], z3.And(str_U(u_of_str(_s)) == _s, _not_special(u_of_str(_s))), patterns=[u_of_str(_s)]),
+    "u_of_int": z3.ForAll([_i], z3.And(int_U(u_of_int(_i)) == _i, _not_special(u_of_int(_i))), patterns=[u_of_int(_i)]),
 }
 BACKGROUND = [
     z3.Not(truthy_U(NONE_U)),
